@@ -3,8 +3,9 @@ From Coq Require Import ZArith.
 From UP Require Import Base.Chars Model.Uri Model.Common Model.Compare Model.Resolve.
 Local Open Scope N_scope.
 
-(* uriEqualsAuthority: only the host is compared *)
+(* uriEqualsAuthority: user info, port, then the host by kind *)
 Definition equals_authority (a b : uri) : bool :=
+  range_eqb (userInfo a) (userInfo b) && range_eqb (portText a) (portText b) &&
   match ip4 a with
   | Some x => match ip4 b with Some y => bytes_eqb x y | None => false end
   | None =>
@@ -56,6 +57,7 @@ Definition remove_base_impl (domain_root : bool) (src base : uri) : N * uri :=
       if negb (range_eqb (scheme src) (scheme base)) then
         copy_path (copy_authority (set_scheme (scheme src) d) src) src
       else if negb (equals_authority src base) then
+        let d := if negb (is_host_set src) && is_host_set base then set_scheme (scheme src) d else d in
         copy_path (copy_authority d src) src
       else if domain_root then
         fix_ambiguity (set_absolutePath true (copy_path d src))
